@@ -15,6 +15,7 @@ import (
 	"path/filepath"
 	"runtime"
 	"syscall"
+	"unsafe"
 )
 
 type Fault struct {
@@ -148,6 +149,10 @@ func Run(sp *Spec) (*Result, error) {
 	if !ws.Stopped() {
 		return nil, fmt.Errorf("ptrace: tracee did not stop after exec (status %#x)", uint32(ws))
 	}
+	// cap the address space of the tracee: code under test that allocates
+	// without bound must die instead of taking the machine with it
+	lim := [2]uint64{8 << 30, 8 << 30}
+	_, _, _ = syscall.RawSyscall6(syscall.SYS_PRLIMIT64, uintptr(main), 9 /* RLIMIT_AS */, uintptr(unsafe.Pointer(&lim)), 0, 0, 0)
 	if err := syscall.PtraceSetOptions(main, optSysgood|optClone|optFork|optVfork|optExitKill); err != nil {
 		return nil, fmt.Errorf("ptrace: setoptions: %w", err)
 	}
